@@ -157,7 +157,8 @@ impl Namespace {
             ancestors.push(anc.clone());
         }
         for a in ancestors {
-            if !self.dirs.contains(&a) {
+            // (directories of the very long names are never used as parents of further, possibly real, files)
+            if a.len() <= 600 && !self.dirs.contains(&a) {
                 self.dirs.push(a);
             }
         }
